@@ -167,6 +167,16 @@ func TestVerifC14(t *testing.T) {
 				return
 			}
 			if gen == "readonly-storm" {
+				if idx%12 == 4 {
+					// every other read-only storm: the first value is license-sized (3200 words,
+					// over 20 KB), so that whatever the package does differently for large
+					// texts happens in several goroutines at once. Own PRNG: r is not touched.
+					r2 := rand.New(rand.NewSource(vCaseSeed(e.seed*977+int64(e.shard), "C14big", idx)))
+					big := sFiller(r2, sVocab(r2, 400, "big"), 3200)
+					unknowns[0] = strings.Replace(unknowns[0], vals[0], big, 1)
+					vals[0] = big
+					e.count("readonly_storms_with_a_value_over_20KB", 1)
+				}
 				for k := range vals {
 					c.AddValue(key(k), vals[k])
 				}
